@@ -38,7 +38,7 @@ func c01Case(r *core.Result, s stmt, cpu int, refVerify bool) {
 	var perr, verr error
 	var is implStmt
 	var proof *multiproof.MultiProof
-	if !guard(r, "c01.panic", "CreateMultiProof/CheckMultiProof", in, func() { proof, is, ok, perr, verr, same = proveVerify(c, s) }) {
+	if !timed(r, "c01.panic", "CreateMultiProof/CheckMultiProof", in, func() { proof, is, ok, perr, verr, same = proveVerify(c, s) }) {
 		return
 	}
 	r.Evals++
@@ -250,7 +250,7 @@ func c01Units(ctx *core.Ctx) []core.Unit {
 					setCPU(cpu)
 					in := fmt.Sprintf("groupPolynomialsByEvaluationPoint(n=%d) NumCPU=%d", n, cpu)
 					var got [256][]fr.Element
-					if !guard(r, "c01.panic", "groupPolynomialsByEvaluationPoint", in, func() { got = multiproof.VerifGroup(fs, pwe, zs) }) {
+					if !timed(r, "c01.panic", "groupPolynomialsByEvaluationPoint", in, func() { got = multiproof.VerifGroup(fs, pwe, zs) }) {
 						continue
 					}
 					r.Evals++
@@ -280,7 +280,7 @@ func c01Units(ctx *core.Ctx) []core.Unit {
 	// (6) schedules of the grouping fan-in
 	for _, cpu := range []int{2, 3, 4} {
 		for n := 2; n <= 6; n++ {
-			if cpu == 4 && n > 4 && !ctx.Thorough() {
+			if cpu == 4 && n > 5 && !ctx.Thorough() {
 				continue
 			}
 			cpu, n := cpu, n
